@@ -87,19 +87,79 @@ def run_c10(ctx: Ctx, M: AnnotateModel):
            node=reb[0] if reb else M.LOOP, mod=m, nontrivial=False)
 
 
+def run_c10_source(ctx: Ctx, M: AnnotateModel):
+    """Structural necessary conditions of the source-text clauses (the
+    alignment itself is value-level and not decided)."""
+    m, f = M.m, M.f
+    repo = ctx.repo
+    q = "annotate.annotate_citations"
+    if M.bind_errors:
+        return
+    S, E = M.S, M.E
+    # R-C10-7: start is translated to the right of inserted material, end to the left
+    got = {}
+    for s in stmts_local(M.LOOP.body):
+        if isinstance(s, ast.Assign) and len(s.targets) == 1 and isinstance(s.targets[0], ast.Name) and s.targets[0].id in (S, E):
+            for n in ast.walk(s.value):
+                if isinstance(n, ast.Call) and isinstance(n.func, ast.Attribute) and n.func.attr == "update" and len(n.args) == 2:
+                    got[s.targets[0].id] = (norm(n.args[0]), norm(n.args[1]).split(".")[-1], s)
+    ok = got.get(S, (None, None))[:2] == (S, "bisect_right") and got.get(E, (None, None))[:2] == (E, "bisect_left")
+    ctx.ob("C10-R7", f"{q}/bisect-sides", ok,
+           "a span start must map after material inserted at that offset (bisect_right) and a span end before it (bisect_left), so "
+           f"leading/trailing inserted material stays outside the annotation; found {{k: v[:2] for k, v in got.items()}}".replace("{k: v[:2] for k, v in got.items()}", str({k: v[:2] for k, v in got.items()})),
+           node=(got.get(S) or got.get(E) or (None, None, M.LOOP))[2], mod=m)
+    # R-C10-5: the default diff engine is configured for a minimal character diff
+    gd = repo.func("annotate.SpanUpdater.get_diff_steps")
+    ctx.ob("C10-R5", "annotate.SpanUpdater.get_diff_steps/located", gd is not None, "diff step provider located", node=f, mod=m, nontrivial=False)
+    if gd is not None:
+        calls = [n for n in walk_local(gd) if isinstance(n, ast.Call) and (dotted(n.func) or "").endswith("fast_diff_match_patch.diff")]
+        okc = len(calls) == 1
+        kw = {}
+        if okc:
+            kw = {k.arg: (k.value.value if isinstance(k.value, ast.Constant) else norm(k.value)) for k in calls[0].keywords}
+            okc = kw.get("timelimit") == 0 and kw.get("checklines") is False and kw.get("cleanup") == "No" and \
+                [norm(a) for a in calls[0].args] == [gd.args.args[0].arg, gd.args.args[1].arg]
+        ctx.ob("C10-R5", "annotate.SpanUpdater.get_diff_steps/minimal-char-diff", okc,
+               "the diff must be the minimal character diff of (a, b): no time limit, no line-mode pre-pass, no clean-up "
+               f"(keywords {kw})", node=calls[0] if calls else gd, mod=m)
+    # R-C10-6: update is a pure function of (offset, bisect side)
+    up = repo.func("annotate.SpanUpdater.update")
+    ctx.ob("C10-R6", "annotate.SpanUpdater.update/located", up is not None, "offset translation located", node=f, mod=m, nontrivial=False)
+    if up is not None:
+        ps = [a.arg for a in up.args.args]
+        bad = []
+        for n in walk_local(up):
+            if isinstance(n, (ast.Attribute, ast.Subscript)) and isinstance(n.ctx, (ast.Store, ast.Del)):
+                key_ok = isinstance(n, ast.Subscript) and all(p_ in {x.id for x in ast.walk(n.slice) if isinstance(x, ast.Name)} for p_ in ps[1:])
+                if not key_ok:
+                    bad.append(n)
+            if isinstance(n, ast.Call) and isinstance(n.func, ast.Attribute) and n.func.attr in ("append", "setdefault", "update", "pop", "insert") \
+                    and norm(n.func.value).startswith(ps[0] + "."):
+                bad.append(n)
+        ctx.ob("C10-R6", "annotate.SpanUpdater.update/pure", not bad,
+               "translating an offset must depend on the offset and the bisect side only (state stored under a key that ignores one of "
+               f"them makes the result depend on earlier calls): {[norm(b)[:50] for b in bad]}", node=bad[0] if bad else up, mod=m)
+        uses = {x.id for x in ast.walk(up) if isinstance(x, ast.Name)}
+        ctx.ob("C10-R6", "annotate.SpanUpdater.update/uses-side", all(p_ in uses for p_ in ps[1:]),
+               "both the offset and the bisect side are used", node=up, mod=m, nontrivial=False)
+
+
 def run(ctx: Ctx):
     ctx.level = "other"
     ctx.explanation = (
         "Only the no-source clause is decided: on every loop-body path where no offset updater exists, the span does not "
         "overlap the cursor and the span is not judged unbalanced, exactly one piece `before + T[start:end] + after` is emitted "
         "with the annotation's own start/end (version 0 of both) and its own before/after, T is the plain text, iteration is "
-        "over sorted(annotations) and pieces are appended at the tail.  Everything that depends on the diff (source-text "
-        "alignment, monotonicity and range of the offset translation) is NOT decided: it is a property of values returned by "
-        "fast_diff_match_patch / difflib and of two bisections over them."
+        "over sorted(annotations) and pieces are appended at the tail.  For the source-text clauses only three structural "
+        "necessary conditions are decided: R5 the default diff engine is called for the minimal character diff (timelimit=0, "
+        "checklines=False, cleanup='No'), R6 SpanUpdater.update is a pure function of (offset, bisect side), R7 starts are "
+        "translated with bisect_right and ends with bisect_left.  The alignment itself (monotonicity, range, exact enclosure) is "
+        "NOT decided: it is a property of values returned by fast_diff_match_patch / difflib and of two bisections over them."
     )
     ctx.trusted = ["the checker (sa/annot.py)", "Python slicing and tuple ordering"]
     ctx.assumptions = ["default annotator", "spans satisfy 0 <= start <= end <= len(text)"]
     M = AnnotateModel(ctx)
     run_c10(ctx, M)
+    ctx.guard(run_c10_source, ctx, M)
     ctx.floor("C10-R1", 1)
     ctx.floor("C10-R2", 2)
